@@ -925,13 +925,42 @@ def parse_bindings(result, cls, model):
 def substituted_constant(v):
     """``self.attr`` written on one arm of a conditional expression and a value that reads nothing of the object on the other:
     (attr, the other value), else None"""
-    if not isinstance(v, Sym) or v.op != 'ifexp' or len(v.args) != 3:
+    if not isinstance(v, Sym):
         return None
-    arms = v.args[1:]
+    if v.op == 'call' and v.args and v.args[0] in ('min', 'max') and len(v.args) == 3:
+        v = Sym(v.args[0], *v.args[1:])
+    if v.op in ('min', 'max') and len(v.args) == 2:
+        # the attribute clamped at a constant: beyond it the constant is written
+        for own, other in (v.args, v.args[::-1]):
+            if isinstance(own, SelfV) and len(own.path) == 1 and isinstance(own.path[0], str) and not compose_root(other):
+                return own.path[0].lstrip('_'), other
+        return None
+    if v.op == 'phi' and len(v.args) == 2:
+        for arm in v.args:
+            inner = substituted_constant(arm) if isinstance(arm, Sym) and (arm.op in ('min', 'max') or (arm.op == 'call' and arm.args and arm.args[0] in ('min', 'max'))) else None
+            if inner is not None and any(isinstance(x, SelfV) and x.path and x.path[0].lstrip('_') == inner[0] for x in v.args):
+                return inner
+    if v.op == 'ifexp' and len(v.args) == 3:
+        arms, cond = v.args[1:], v.args[0]
+    elif v.op == 'phi' and len(v.args) == 2:
+        # the same written with statements (a property or helper that returns the constant on one path, the attribute on the other)
+        arms, cond = v.args, getattr(v, 'cond', None)
+    else:
+        return None
     for own, other in (arms, arms[::-1]):
-        if isinstance(own, SelfV) and len(own.path) == 1 and isinstance(own.path[0], str) and not compose_root(other):
+        if isinstance(own, SelfV) and len(own.path) == 1 and isinstance(own.path[0], str) and not compose_root(other) and \
+                (is_const_value(other) or isinstance(other, ObjV)):
+            if isinstance(cond, Sym) and cond.op == 'cmp' and cond.args[0] in ('==', 'is') and \
+                    any(show(x) == show(other) for x in cond.args[1:]) and any(show(x) == show(own) for x in cond.args[1:]):
+                return None         # ``K if self.x == K else self.x``: the constant stands for itself
             return own.path[0].lstrip('_'), other
     return None
+
+
+def is_const_value(v):
+    from .values import is_const
+    from .model import EnumMember
+    return is_const(v) or isinstance(v, EnumMember) or (isinstance(v, Sym) and v.op in ('call', 'extcall') and not compose_root(v))
 
 
 def stored_as_read(presult, a, attr):
